@@ -56,6 +56,16 @@ fn st(prop: impl Property + 'static, quick: u64, thorough: u64, profile: Profile
 }
 
 /// The same with a stage-specific thorough multiplier (cheap stages can afford more).
+/// Explicit case counts (stages whose single cases cost tens of seconds).
+fn st_n(prop: impl Property + 'static, quick_cases: u64, thorough_cases: u64, profile: Profile) -> Stage {
+    Stage {
+        prop: Box::new(prop),
+        quick_cases,
+        thorough_cases,
+        profile,
+    }
+}
+
 fn st_x(prop: impl Property + 'static, quick: u64, thorough_scale: u64, profile: Profile) -> Stage {
     Stage {
         prop: Box::new(prop),
@@ -70,7 +80,7 @@ fn st_x(prop: impl Property + 'static, quick: u64, thorough_scale: u64, profile:
 pub fn fuzzable(s: &Stage) -> bool {
     s.profile == Profile::Release
         && ![
-            "wide", "huge", "far-ids", "wide-root", "expensive-soft", "long", "bulk", "bulk-fat", "deep-chain", "exhaustive", "all-indices", "asan",
+            "wide", "huge", "far-ids", "wide-root", "expensive-soft", "long", "bulk", "bulk-fat", "deep-chain", "many-soft", "giant", "exhaustive", "all-indices", "asan",
         ]
         .contains(&s.prop.stage())
 }
@@ -96,7 +106,7 @@ pub fn stages(id: &str) -> Vec<Stage> {
             st(C02 { params: Params::conflict_heavy().env_override(), stage: "main", variants: 4 }, 15_000, 600_000, Release),
             st(C02 { params: Params::assertion_heavy(), stage: "assertions", variants: 3 }, 10_000, 400_000, Release),
             st(C02 { params: Params::deep_conflict(), stage: "deep", variants: 2 }, 4_000, 160_000, Release),
-            st_x(C04Deep { id: "C02", stage: "deep-chain", max_depth: 16_384, max_soft: 70_000 }, 2, 8, Isolated),
+            st_x(C04Deep { id: "C02", stage: "deep-chain", max_depth: 16_384, max_soft: 70_000, only_soft: false }, 2, 8, Isolated),
         ],
         "C03" => vec![
             st(C03 { params: Params::conflict_heavy().with_big_unions(100), stage: "main" }, 20_000, 800_000, Release),
@@ -110,8 +120,8 @@ pub fn stages(id: &str) -> Vec<Stage> {
             st(C04 { params: Params::default().hint_heavy().with_soft(2, 150), stage: "reentrant-sort-debug", reentrant: true }, 3_000, 120_000, Debug),
             st(C04 { params: Params::default().hint_heavy().with_soft(4, 250).with_far_ids(600), stage: "far-ids", reentrant: false }, 300, 6_000, Release),
             st(C04 { params: Params::huge_package(3000).with_soft(2, 100), stage: "huge", reentrant: false }, 100, 2_000, Release),
-            st_x(C04Deep { id: "C04", stage: "deep-chain", max_depth: 16_384, max_soft: 70_000 }, 3, 8, Isolated),
-            st_x(C04Deep { id: "C04", stage: "deep-chain-debug", max_depth: 6_000, max_soft: 70_000 }, 2, 8, IsolatedDebug),
+            st_x(C04Deep { id: "C04", stage: "deep-chain", max_depth: 16_384, max_soft: 70_000, only_soft: false }, 3, 8, Isolated),
+            st_x(C04Deep { id: "C04", stage: "deep-chain-debug", max_depth: 6_000, max_soft: 70_000, only_soft: false }, 2, 8, IsolatedDebug),
         ],
         "C05" => vec![
             st(C05 { params: Params::conflict_heavy().with_soft(2, 100), stage: "main" }, 60_000, 1_500_000, Release),
@@ -159,12 +169,14 @@ pub fn stages(id: &str) -> Vec<Stage> {
             st(C14 { params: Params::conflict_heavy().with_soft(5, 200), stage: "general", conflict_free: false }, 15_000, 600_000, Release),
             st(C14 { params: Params::default(), stage: "conflict-free", conflict_free: true }, 15_000, 600_000, Release),
             st(C14Heavy { stage: "expensive-soft", max_holes: 9 }, 8, 160, Release),
+            st_x(C04Deep { id: "C14", stage: "many-soft", max_depth: 4_096, max_soft: 70_000, only_soft: true }, 1, 8, Isolated),
         ],
         "C15" => vec![
             st_x(C15 { stage: "small", max_n: 33, all_pairs_upto: 33, sample_pairs: 0, extended: false, overlap: false }, 300, 128, Release),
             st_x(C15 { stage: "large", max_n: 130, all_pairs_upto: 64, sample_pairs: 600, extended: false, overlap: false }, 40, 128, Release),
             st_x(C15 { stage: "extended", max_n: 20, all_pairs_upto: 20, sample_pairs: 0, extended: true, overlap: false }, 1_000, 128, Release),
             st_x(C15 { stage: "overlap", max_n: 20, all_pairs_upto: 20, sample_pairs: 0, extended: true, overlap: true }, 600, 128, Release),
+            st_n(C15Giant { stage: "giant", extra_max: 560 }, 8, 96, Release),
         ],
         "C16" => vec![
             st(C16 { params: Params::default(), stage: "main" }, 8_000, 300_000, Release),
